@@ -557,6 +557,8 @@ var vpTemplates = []string{
 	// a code line that ends in an annotation comment; a file that ends without a newline
 	/* 54 */ "local \x01 = 1\nlocal \x02 = \x01 ---@type number\ng = \x02 + \x01 ---@type number\n",
 	/* 55 */ "local \x01 = 1\nlocal \x02 = 2\nreturn \x01 + \x02",
+	// locals initialised from annotated globals and the reverse (hover labels are built along the chain)
+	/* 56 */ "---@class Kx\n---@type Kx\n\x01 = {}\nlocal \x02 = \x01\nprint(\x02, \x01)\n---@type Kx\nlocal \x03 = {}\n\x04 = \x03\nprint(\x04, \x03)\n",
 }
 
 // vpInstantiate fills the holes of template t with symbolic names; tag prefixes the variable names.
